@@ -1321,7 +1321,7 @@ func TestC13(t *testing.T) {
 	})
 	lap("fixed")
 
-	nSets := r.Pick(20, 160)
+	nSets := r.Pick(20, 80)
 	r.ForEach("sets", nSets, 8, func(i int, rng *rand.Rand) {
 		set := cachelib.GenOutSet(rng, true, i%5 == 4)
 		for _, f := range set.Features() {
